@@ -1024,7 +1024,7 @@ fn robustness3(thorough: bool, seed: u64, out: &mut dyn FnMut(String)) {
     for &n in &pf {
         k += 1;
         let pats = ["b0", "b3", "b1", "b2", "b4"];
-        out(format!("pack_g {} none {}", g(&[n], pats[k % 5], n % 8 == 1 && n > 16 * M || thorough), spell(k % 2 == 0, k)));
+        out(format!("pack_g {} none {}", g(&[n], pats[k % 5], n == 16 * M + 1 || thorough), spell(k % 2 == 0, k)));
         if thorough && n % 8 == 1 { out(format!("pack_g {} none {}", g(&[n], pats[(k + 1) % 5], true), spell(k % 2 == 1, k))); }
     }
     // (11.b) the same lengths as LANES (ranks 2..4; first / middle / last axis; extents that are / are not multiples of 64)
@@ -1043,7 +1043,7 @@ fn robustness3(thorough: bool, seed: u64, out: &mut dyn FnMut(String)) {
     }
     for (n, c) in &uf {
         k += 1;
-        out(format!("unpack_g {} none {c} {}", g(&[*n], ["p0", "p1", "p2", "p3"][k % 4], thorough || *c == "16777217"), spell(k % 2 == 0, k)));
+        out(format!("unpack_g {} none {c} {}", g(&[*n], ["p0", "p1", "p2", "p3"][k % 4], thorough), spell(k % 2 == 0, k)));
     }
     // a flat call on arrays of rank 2..4 (the flat form ravels)
     let mut ur: Vec<Vec<usize>> = vec![vec![3, 349_527]];
@@ -1074,9 +1074,9 @@ fn robustness3(thorough: bool, seed: u64, out: &mut dyn FnMut(String)) {
             if n / sh[ax] > 17_000 { continue; }
             k += 1; slot += 1;
             let axs = if k % 2 == 0 { ax.to_string() } else { (ax as isize - r as isize).to_string() };
-            let mine = thorough || slot % 4 == (seed as usize) % 4;
+            let mine = thorough || slot % 5 == (seed as usize) % 5;
             if mine { out(format!("unpack_g {} {axs} {} {}", g(sh, ["p0", "p1", "p2"][k % 3], thorough), if k % 3 == 0 { "-3" } else { "none" }, spell(k % 2 == 0, k))); }
-            if thorough || slot % 2 == (seed as usize) % 2 { out(format!("pack_g {} {axs} {}", g(sh, ["b0", "b1", "b2", "b4"][k % 4], thorough), spell(k % 2 == 1, k))); }
+            if thorough || slot % 3 == (seed as usize) % 3 { out(format!("pack_g {} {axs} {}", g(sh, ["b0", "b1", "b2", "b4"][k % 4], thorough), spell(k % 2 == 1, k))); }
             if thorough && (n / sh[ax] <= 2500 || ax == 0) { out(format!("roundtrip_g {} {axs} {}", g(sh, "p1", false), spell(k % 2 == 1, k + 1))); }
         }
     }
@@ -1101,6 +1101,7 @@ fn robustness3(thorough: bool, seed: u64, out: &mut dyn FnMut(String)) {
     for v in [0x00u8, 0xFF, 0x80, 0x01, 0xAA, 0x55, 0x0F, 0xF0, 0x81, 0x18, 0xE7] {
         for l in [1usize, 2, 8, 9, 64, 65, 1024, 1025] {
             k += 1;
+            if l > 1000 && !thorough && ![0x00u8, 0xFF, 0x01].contains(&v) { continue; }      // ~80 ms of model time each
             let a = arr(&[l], &vec![v; l]);
             out(format!("roundtrip {a} none {}", spell(k % 2 == 0, k)));
             out(format!("unpack {a} none {} {}", ["none", "-1", "9"][k % 3], spell(k % 2 == 1, k)));
@@ -1151,6 +1152,7 @@ fn robustness3(thorough: bool, seed: u64, out: &mut dyn FnMut(String)) {
     }
     for (l, per) in [(1024usize, 8usize), (1030, 8), (1030, 64), (2056, 1024), (4100, 1024)] {
         k += 1;
+        if l > 4000 && !thorough { continue; }
         let v: Vec<u8> = (0..l).map(|i| ((i % per) * 37 % 251) as u8 ^ 0x80).collect();
         out(format!("roundtrip {} none {}", arr(&[l], &v), spell(k % 2 == 0, k)));
         out(format!("unpack {} none -5 {}", arr(&[l], &v), spell(k % 2 == 1, k)));
